@@ -8,6 +8,22 @@ NOTES = ("Driver: /verif/verif (python3, stdlib). Every check rebuilds harness/c
          "Known findings: /verif/KNOWN_FINDINGS.txt (read-only at run time). VERIF_SEED selects the rapid seeds; sweeps ignore it.")
 
 CLAIMED = {
+ "C01": dict(
+    technique="property-based testing (rapid): API build programs for every controller-originated kind, framing oracle (version/type/header length == bytes == Len()) plus independent wire-model size",
+    level_text="Generated build programs over all 17 controller-originated message kinds, every command variant, nested lists up to the 64 KiB frame limit; each encoding is judged against version 4, the kind's type code, header length == bytes produced == Len() before and after encoding. Sampling, not proof: absence of violations is not shown.",
+    level_note="Trusts the generator's preconditions (DESIGN.md Appendix B) and the type-code table of harness/spec."),
+ "C02": dict(
+    technique="property-based testing (rapid) with an independent specification-derived TLV walker (harness/spec) as oracle; builder call histories via rapid state machine",
+    level_text="Every generated message, stand-alone element and builder history is encoded by the library and walked by an independent strict decoder written from OF1.3.5 / nicira-ext.h / meta-flow.h / EXT-230 that advances only by declared lengths and rejects wrong lengths, missing alignment, non-zero padding and unknown codes.",
+    level_note="The wire model is my transcription of the specifications (DESIGN.md Appendix A); it is self-tested (Decode(Encode(t))==t) and must not import the library."),
+ "C03": dict(
+    technique="property-based testing (rapid), dual construction: library bytes decoded by the independent wire model must equal the tree the constructor arguments denote",
+    level_text="Each case draws constructor arguments once and yields both the library value and the specification tree they denote; the independent decoder must recover exactly that tree (values, optional parts, order) from the library's bytes.",
+    level_note="Trusts the wire model and the generator's statement of what each constructor denotes; two OF1.0-layout request bodies are listed known findings."),
+ "C04": dict(
+    technique="property-based testing (rapid), differential against an independent encoder: conformant switch-originated frames from the wire model are parsed by the library and field-wise extracted back into the model's tree",
+    level_text="Specification-conformant frames of every switch-originated kind the library has a receiver for are produced by the independent encoder, parsed through openflow13.Parse, and a per-kind extractor over exported fields must rebuild the generated tree exactly (ports, stats records, match fields, instructions, actions, packet payload).",
+    level_note="Trusts the wire model's encoder and the extractors in harness/checks/extract_test.go; OF1.0-layout stats replies and the echo payload are listed known findings."),
  "C16": dict(
     technique="exhaustive enumeration of the finite domain against an arithmetic reference (property-based oracle, no sampling)",
     level_text="All 528 bit ranges and all 65,536 offset/width pairs are enumerated and compared with a bit-by-bit reference; within the stated domain this is complete.",
@@ -21,4 +37,4 @@ for k in CLAIMED:
     ENGINES[0]["serves_properties"].append(k)
 
 NOT_APPLICABLE = {p: "check under construction in this round (design in DESIGN.md section 10); not claimed until it runs clean on the unchanged tree"
-                  for p in ["C01","C02","C03","C04","C05","C06","C07","C08","C09","C10","C11","C12","C13","C14","C15","C17","C19"]}
+                  for p in ["C05","C06","C07","C08","C09","C10","C11","C12","C13","C14","C15","C17","C19"]}
